@@ -21,13 +21,14 @@ import (
 const rule = "a (key, message, chain id, V candidates, tamper) case is non-trivial when the key or R or S has a leading zero byte, or chain id >= 2^31, or a V candidate >= 256 is tried; V sweeps: every V in [0,2^17] for a (key, chain id) pair, each V that reaches curve arithmetic counted as non-trivial; distinct by hash of the case JSON"
 
 type Case struct {
-	Key     string   `json:"key"`     // 32-byte hex
-	Msg     string   `json:"msg"`     // hex; the digest itself when Direct
-	Direct  bool     `json:"direct"`  // SignDirect/RecoverDirect instead of Sign/Recover
-	ChainID int64    `json:"chainId"` // chain id supplied to recovery
-	Vs      []string `json:"vs"`      // V candidates (decimal) tried with the genuine R,S
-	FlipBit int      `json:"flipBit"` // bit flipped in R (0..255) / S (256..511) for the tamper clause
-	MsgFlip int      `json:"msgFlip"` // bit of the message flipped for the other-message clause (-1: append a byte)
+	KeyTrim bool     `json:"keyTrim,omitempty"` // hand the key over without its leading zero bytes (minimal big-endian form)
+	Key     string   `json:"key"`               // 32-byte hex
+	Msg     string   `json:"msg"`               // hex; the digest itself when Direct
+	Direct  bool     `json:"direct"`            // SignDirect/RecoverDirect instead of Sign/Recover
+	ChainID int64    `json:"chainId"`           // chain id supplied to recovery
+	Vs      []string `json:"vs"`                // V candidates (decimal) tried with the genuine R,S
+	FlipBit int      `json:"flipBit"`           // bit flipped in R (0..255) / S (256..511) for the tamper clause
+	MsgFlip int      `json:"msgFlip"`           // bit of the message flipped for the other-message clause (-1: append a byte)
 }
 
 // Open known finding "v-compact-byte-alias": a single-byte V equal to the low 8 bits
@@ -76,7 +77,13 @@ func signCase(c Case) (*signed, []evid.Violation) {
 	keyBytes, _ := hex.DecodeString(c.Key)
 	msg, _ := hex.DecodeString(c.Msg)
 	d := new(big.Int).SetBytes(keyBytes)
+	if c.KeyTrim {
+		keyBytes = d.Bytes() // the same scalar, spelled without leading zero bytes
+	}
 	kp := secp256k1.KeyPairFromBytes(keyBytes)
+	if pk := kp.PrivateKeyBytes(); new(big.Int).SetBytes(pk).Cmp(d) != 0 || len(pk) != 32 {
+		vs = append(vs, evid.V("private-key-bytes", "PrivateKeyBytes() = %x for the scalar %x", pk, d))
+	}
 	px, py := secp.PubKey(d)
 	refAddr := secp.Address(px, py)
 	if !bytes.Equal(kp.Address[:], refAddr[:]) {
@@ -496,6 +503,9 @@ func classify(c Case) (bool, []string) {
 		cl = append(cl, "key:leading-zero")
 		nt = true
 	}
+	if c.KeyTrim {
+		cl = append(cl, "key:minimal-length-bytes")
+	}
 	if sig != nil && (len(sig.R.Bytes()) < 32 || len(sig.S.Bytes()) < 32) {
 		cl = append(cl, "R-or-S<32B")
 		nt = true
@@ -534,6 +544,7 @@ func TestCheck(t *testing.T) {
 	var pool []Case
 	rec.Rapid(t, "signrecover", rec.N(1200, 6000), func(rt *rapid.T) {
 		c := Case{Key: genKey(rt), Direct: rapid.Bool().Draw(rt, "direct"), ChainID: genChainID(rt)}
+		c.KeyTrim = c.Key[:2] == "00" && rapid.Bool().Draw(rt, "keyTrim")
 		if c.Direct {
 			c.Msg = gen.HexBytes(rt, "digest", 32)
 		} else {
